@@ -256,6 +256,10 @@ def _check(case, handles):
     last_pos = None
     for step, op in enumerate(case["ops"]):
         kind = op[0]
+        if naming.startswith("handle") and handles:
+            # the opened file belongs to the caller as well: its cursor is moved between two accesses
+            handles[-1].seek(0)
+            handles[-1].readline()
         if kind == "index":
             k = op[1] % n
             same(lib("index", sg.__getitem__, k), k, "step %d sg[%d]" % (step, k))
